@@ -652,5 +652,32 @@ func vfGenStormSpecs(tier string, seed uint64, race bool) []vfSpec {
 }
 
 func init() { //nolint:gochecknoinits
-	vfRegister(&vfProperty{id: "C20", list: vfGenStormSpecs, run: vfRunStorm})
+	vfRegister(&vfProperty{
+		id: "C20",
+		list: func(tier string, seed uint64, race bool) []vfSpec {
+			out := vfGenStormSpecs(tier, seed, race)
+			// real-time storms: blocking-write mode with several writers per stream cannot run in virtual time
+			n := vfTierN(tier, 14, 120)
+			if race {
+				n = vfTierN(tier, 24, 240)
+			}
+			for i := 0; i < n; i++ {
+				r := vfNewRand(vfHash(seed, uint64(i), 0x2075))
+				sp := vfSpec{Prop: "C20", Kind: "rt-storm", ID: fmt.Sprintf("C20-rt-%d", i), Seed: r.Uint64(), Procs: r.Pick(4, 8, 16)}
+				sp.A.IL, sp.B.IL = i%2 == 1, i%2 == 1
+				sp.X = map[string]int64{"rbuf": int64(r.Pick(4096, 16384, 65536)), "ops": int64(r.Pick(30, 60)), "run_ms": int64(r.Pick(500, 1200))}
+				out = append(out, sp)
+			}
+
+			return out
+		},
+		run: func(t *testing.T, spec *vfSpec, res *vfRes) {
+			if spec.Kind == "rt-storm" {
+				vfRunRTStorm(t, spec, res)
+
+				return
+			}
+			vfRunStorm(t, spec, res)
+		},
+	})
 }
